@@ -11,6 +11,7 @@ import Iodata.Lemmas.Fmt.Xyz
 import Iodata.Lemmas.Fmt.Sdf
 import Iodata.Lemmas.Fmt.Pdb
 import Iodata.Lemmas.Fmt.PdbConect
+import Iodata.Lemmas.Fmt.Fchk
 import Iodata.Gen.Layouts
 
 namespace Iodata.Props.C03
@@ -96,5 +97,36 @@ theorem pdb_upper_case_elements :
 
 /-- PDB (former counter-example, fixed by ce4a9da): CONECT serials ≥ 10000 in the published columns. -/
 example : Pdb.parseConect pdbL "CONECT1000010001\n".toList = .ok [(9999, 10000)] := by decide +kernel
+
+/-! ## Fortran `D` exponents -/
+
+/-- a real printed by Fortran as `±D.DDDD…D±XX` is read, after the readers' `.replace("D", "E")`, as the printed
+mantissa/exponent pair (WFN sections, Molden exponents/coefficients, Gaussian-log integrals use this spelling). -/
+theorem sci_fortran_D (sp : Bool) (d : Nat) (x : Sci) (hd : 0 < d) (hm : x.man < 10 ^ (d + 1)) (p q : Str)
+    (hp : AllWs p) (hq : AllWs q) : pySci d (replaceD (p ++ (sciCoreC sp 'D' d x ++ q))) = some x :=
+  pySci_replaceD sp d x hd hm p q hp hq
+
+/-! ## FCHK (Gaussian's formatted checkpoint: `A40,3X,A1,5X,I12` / `E22.15`; `A40,3X,A1,3X,'N=',I12`; `6I12`; `5E16.8`) -/
+
+/-- FCHK: the column at which the reader in the source separates label and words is the one Gaussian's layout defines,
+and the published widths satisfy the side conditions of the model. -/
+theorem fchk_reader_cut_matches_spec :
+    fchkL.cut = 43 ∧ (Fchk.specG fchkL).reader.cut = fchkL.reader.cut ∧ Fchk.LayoutOK (Fchk.specG fchkL) ∧
+    Fchk.RunTypesOK (Fchk.specG fchkL) fchkRunTypes := by decide +kernel
+
+/-- FCHK: a file rendered with Gaussian's widths (real scalars with 15 decimals, arrays `6I12` / `5E16.8`, any number of
+elements, touching columns excluded by the format's own widths) loads as its model, for every reader that separates
+label and words at the published column. -/
+theorem fchk_load_spec (L : Fchk.Layout) (hS : Fchk.LayoutOK (Fchk.specG L)) (R : Fchk.RunTypes)
+    (hR : Fchk.RunTypesOK (Fchk.specG L) R) (keep : Str → Bool) (m : Fchk.Obj) (h : Fchk.Dom (Fchk.specG L) m)
+    (hk : ∀ f ∈ m.fields, keep f.1 = true) :
+    Fchk.load (Fchk.specG L).reader R keep (Fchk.dump (Fchk.specG L) R m) = .ok (Fchk.norm (Fchk.specG L) R m) :=
+  Fchk.load_dump (Fchk.specG L) hS R hR keep m h hk
+
+/-- FCHK: triangular storage is unpacked to the right elements: element `(i, j)` of the dense matrix is entry
+`max(i,j)·(max(i,j)+1)/2 + min(i,j)` of the stored triangle, for every size. -/
+theorem fchk_dense_entry (α : Type) (d : α) (n : Nat) (t : List α) (i j : Nat) (hi : i < n) (hj : j < n) :
+    ((Fchk.dense d n t).getD i []).getD j d = t.getD (Fchk.triIdx i j) d := by
+  simp [Fchk.dense, List.getD, hi, hj]
 
 end Iodata.Props.C03
